@@ -86,3 +86,58 @@ def run_impl(bins, lines, pid_of_line, timeout=600):
     for t in ths: t.start()
     for t in ths: t.join()
     return out
+
+
+def blame(group, modules, log):
+    """maps rustc errors (`--> src/gen_<group>_b<k>.rs:LINE`) of a failed build to the generated program modules they point into.
+    Returns [(pid, module text, error excerpt)]"""
+    import re
+    gen = os.path.join(ENG, "src")
+    text_of = dict(modules)
+    spans = {}          # file -> [(first line, last line, pid)]
+    out, seen = [], set()
+    blocks = re.split(r"\n(?=error)", log)
+    for b in blocks:
+        if not b.startswith("error"): continue
+        m = re.search(r"--> src/(gen_%s_b\d+\.rs):(\d+):" % re.escape(group), b)
+        if not m: continue
+        f, line = m.group(1), int(m.group(2))
+        if f not in spans:
+            sp, cur = [], None
+            try: src = open(os.path.join(gen, f)).read().split("\n")
+            except OSError: continue
+            for i, l in enumerate(src, 1):
+                mm = re.match(r"\s*(?:pub )?mod (\w+) \{", l)
+                if mm and mm.group(1) in text_of:
+                    if cur: sp.append((cur[0], i - 1, cur[1]))
+                    cur = (i, mm.group(1))
+            if cur: sp.append((cur[0], len(src), cur[1]))
+            spans[f] = sp
+        for a, z, pid in spans[f]:
+            if a <= line <= z and pid not in seen:
+                seen.add(pid); out.append((pid, text_of[pid], b[:1500]))
+    return out
+
+
+def report_build_failure(report, group, modules, log, limit=3):
+    """a generated program that no longer compiles against the repository is a concrete failing input (the program text is the replay);
+    only when no error can be attributed to a program is the broken obligation reported without one"""
+    bl = blame(group, modules, log)
+    for pid, text, err in bl[:limit]:
+        report.violation({"kind": "compile-failure", "group": group, "program": pid, "rust_module": text, "rustc_error": err,
+                          "why": "a generated program of this check (accepted and compiled on the pinned tree) does not compile against the repository"})
+    if not bl:
+        report.violation({"kind": "obligation-broken", "no_longer_checks": [f"generated programs of group {group} do not compile against the repository"],
+                          "log": log[-6000:]}, no_input=True)
+    report.cov["programs_not_compiling"] = [pid for pid, _, _ in bl]
+
+
+def replay_compile_failure(report, payload):
+    """--replay of a compile-failure: rebuild that one program against the repository's working tree"""
+    pid, text = payload["program"], payload["rust_module"]
+    bins, log, wall = build(payload.get("group", "replay") + "_replay", [(pid, text)], nbins=1)
+    if bins is None:
+        report.violation({"kind": "compile-failure", "group": payload.get("group"), "program": pid, "rust_module": text, "rustc_error": log[-1500:],
+                          "why": "replayed program does not compile against the repository"})
+    try: os.remove(os.path.join(ENG, "src", "gen_" + payload.get("group", "replay") + "_replay_b0.rs"))
+    except OSError: pass
